@@ -94,3 +94,26 @@ Theorem C02_exit_state_inner_first : forall (subs:list (option exit_fn)) ev s it
     (Cb KMExit [s] 0 ev false (act rn) :: map (push_path s) inner ++ items, set_kids rn (upd (kids rn) s (Some kn1))).
 Proof. exact exit_state_sub. Qed.
 Print Assumptions C02_exit_state_inner_first.
+
+(* ---- on the specification function (Spec.v), which every configuration is proved to run on the core fragment
+        (Properties_C01: C01_every_configuration_runs_the_specified_selection) ---- *)
+From Msm Require Import Spec Lemmas_Core Lemmas_SpecPolicy.
+
+(* an external transition between states of any kind (simple or submachines of any depth), under every switch policy:
+   the source's exit cascade, then the action, then the target's entry cascade (the lists are newest first; E erases
+   only the ids the behaviours read), and afterwards the region is on the target and nothing else of this level changed
+   but what the two cascades did below the source and the target *)
+Theorem C02_spec_external_order : forall pol mc r x ev c nxt, pol < 4 -> tgt_state (r_tgt x) = Some nxt ->
+  let '(i1, c1) := sp_exit_state (sp_exit_subs mc) ev (r_src x) ([], c) in
+  let '(i3, c4) := sp_enter_state (sp_enter_subs mc) ev nxt ([], c1) in
+  E (fst (sp_take pol mc r x ev c)) =
+    E (i3 ++ (match r_act x with ActCall => [Cb KAction [] (r_id x) ev false []] | _ => [] end) ++ i1) /\
+  snd (sp_take pol mc r x ev c) = c_set_act c4 (upd (c_act c) r nxt).
+Proof. exact sp_take_order. Qed.
+Print Assumptions C02_spec_external_order.
+
+(* an internal transition runs its action only and leaves the configuration untouched *)
+Theorem C02_spec_internal : forall pol mc r x ev c, tgt_state (r_tgt x) = None ->
+  sp_take pol mc r x ev c = (match r_act x with ActCall => [Cb KAction [] (r_id x) ev false (c_act c)] | _ => [] end, c).
+Proof. exact sp_take_internal. Qed.
+Print Assumptions C02_spec_internal.
